@@ -222,7 +222,7 @@ pub async fn request_certificate(
 	drop(data_builder);
 
 	// Finalize the order by sending the CSR
-	let key_pair = certificate::get_key_pair(cert).await?;
+	let (key_pair, is_new_key) = certificate::get_key_pair(cert).await?;
 	let domains: Vec<String> = cert
 		.identifiers
 		.iter()
@@ -288,6 +288,9 @@ pub async fn request_certificate(
 		.map_err(|e| e.prefix("invalid certificate received from the server"))?;
 	if !new_cert.has_public_key_of(&key_pair)? {
 		return Err("the received certificate does not match the private key".into());
+	}
+	if is_new_key {
+		certificate::store_key_pair(cert, &key_pair).await?;
 	}
 	storage::write_certificate(&cert.file_manager, crt.as_bytes()).await?;
 
